@@ -47,6 +47,11 @@ EMBED = [(b"", b""), (b"x ", b" y"), (b"a=", b";b"), (b"\n", b"\n")]
 BREAKS = [b"", b"\n", b"\r\n", b"&#10;", b"&#xA;", b"&#13;&#10;", b"&#xD;&#xA;", b"<\x00  \x00", b"&#13;\n"]
 
 
+# other spellings of an escaped line break (zero padding, lower-case hex, missing semicolon, a tab): whether or not the library treats one as a
+# separator, every node it reports must be the decoding of the text it covers
+ODD_BREAKS = [b"&#010;", b"&#0010;", b"&#00010;", b"&#000010;", b"&#00013;&#00010;", b"&#x0A;", b"&#x0a;", b"&#xa;", b"&#x0000D;&#x0000A;", b"&#13", b"&#9;", b"&#xd;&#xa;"]
+
+
 def describe(tier):
     return {
         "rule": (
@@ -54,7 +59,7 @@ def describe(tier):
             "position of a 24-byte payload; bare base64 (encoded with an own encoder) x 4 embeddings at scan level, expected: exactly one "
             "encoding.base64 node covering exactly the blob with the payload as value whenever the documented acceptance rules hold (own predicate); "
             "base64 wrapped into 5..10000 lines (boundary ladder) of width 4 and 76 with 4 line-break spellings; long payloads (up to 3000 bytes) that start with a monotonous sled so that the characters which satisfy the rules appear only late; boundary blobs on both sides of every rule (20/24 characters, 6/7 distinct characters (4..8 alphabet symbols x no / one / two padding characters x 3 lengths), pure hex, pure letters, slash share 3/32 +- one "
-            "character; EVERY base64-alphabet character at EVERY position of a hex-only, an upper-case hex-only and a letters-only 24-character text); every assignment of %d line-break spellings to the %d gaps of a 7-group blob; 6 call forms x every payload length; hex runs of "
+            "character; EVERY base64-alphabet character at EVERY position of a hex-only, an upper-case hex-only and a letters-only 24-character text); 12 other spellings of an escaped line break (zero padding, lower-case hex, no semicolon) mixed with the documented ones in every gap (forward oracle); every assignment of %d line-break spellings to the %d gaps of a 7-group blob; 6 call forms x every payload length; hex runs of "
             "9/10/11/16 pairs x lower/upper/mixed x digit-only prefixes of 0..24 characters x embeddings; FromHexString call forms (plain, [System.Convert]:: prefix, lower case); PowerShell byte arrays of 499..640 elements x 5 element spellings (decimal, 0x hex, 0X HEX, zero-padded, mixed) x 4 separators x 3 embeddings. "
             "Forward direction: every node labelled encoding.base64 / decoded.hexadecimal / encoding.hexidecimal / cipher.xor* / cipher.multibyte_xor "
             "met in these runs, in xor runs (keys 0..999 x 4 spellings x 3 carriers; key-guessing form with repeating keys of length 1..4) and in every "
@@ -74,7 +79,7 @@ def plan(tier, seed):
     units = [("bare", tier, n) for n in range(0, maxlen + 1)]
     units += [("bytepos", v0) for v0 in range(0, 256, 16)]
     units += [("bounds",), ("late",)] + [("lines", i) for i in range(4)]
-    units += [("breaks", i) for i in range(len(BREAKS))]
+    units += [("breaks", i) for i in range(len(BREAKS))] + [("oddbreaks", i) for i in range(len(ODD_BREAKS))]
     units += [("calls", tier, ci) for ci in range(len(CALLS))]
     units += [("hex", case) for case in ("lower", "upper", "mixed")] + [("buffer",)]
     units += [("xor", c) for c in range(3)] + [("xorguess",)] + [("psbytes", i) for i in range(4)]
@@ -328,6 +333,27 @@ def run_unit(unit, rec):
             for h in hits:
                 forward(rec, h, data[h.start : h.end], w, len(data))
         rec.sample({"family": "line-breaks", "first_gap": first, "last": data})
+    elif kind == "oddbreaks":
+        groups = [b"VGhl", b"IHF1aWNrIGJy", b"b3du", b"IGZveCBq", b"dW1wcyBvdmVy", b"IHRoZSBsYXp5", b"IGRvZw=="]
+        first = ODD_BREAKS[unit[1]]
+        n = 0
+        for rest in itertools.product((b"\n", b"&#13;&#10;", first, b""), repeat=5):
+            seps = (first,) + rest
+            blob = b"".join(g + s for g, s in zip(groups, seps + (b"",)))
+            for data in (b"b: " + blob + b" .", b"b: " + blob * 3 + b" ."):
+                rec.mark("states", data, True)
+                rec.count("evaluations")
+                w = {"kind": "oddbreaks", "data": data}
+                ok, hits = rec.guard("C13.total", w, len(data), mdb64.find_base64, data)
+                if not ok:
+                    continue
+                rec.count("traces")
+                n += 1
+                if hits:
+                    rec.mark("nontrivial", data, True)
+                for h in hits:
+                    forward(rec, h, data[h.start : h.end], w, len(data))
+        rec.sample({"family": "odd-line-break-spellings", "first_gap": first, "cases": n})
     elif kind == "calls":
         name, pre_c, suf_c, typ = CALLS[unit[2]]
         maxlen = 40 if unit[1] == "quick" else 64
@@ -482,6 +508,11 @@ def stream_monitor(rec, case):
 
 def replay(w, rec):
     k = w.get("kind")
+    if k == "oddbreaks":
+        ok, hits = rec.guard("C13.total", w, len(w["data"]), mdb64.find_base64, w["data"])
+        for h in hits if ok else ():
+            forward(rec, h, w["data"][h.start : h.end], w, len(w["data"]))
+        return
     if k == "buffer":
         run_unit(("buffer",), rec)
         return
